@@ -340,6 +340,9 @@ self . kxq0 }
 self . kxq1 }
 
 
+    // refinement of the abstract estimator model of units hll_array8 / hll_array8_merge (`ooo` is uninterpreted there)
+    spec fn ooo(&self) -> bool { self.out_of_order }
+
     fn is_out_of_order ( & self ) -> ( r : bool ) ensures r == self . out_of_order {
 self . out_of_order }
 
